@@ -129,6 +129,25 @@ Proof.
   destruct (sval x <? sval y) eqn:E; (split; [auto|]); split; auto; lia.
 Qed.
 
+(* ---- |x| as the code computes it, half range ---- *)
+Definition Half : Z := Wfull / 2.
+Lemma Half_facts : Wfull = 2 * Half /\ two63 <= Half.
+Proof. unfold Half. split; [apply Wfull_half | apply two63_le_half]. Qed.
+
+Lemma sval_bounds x : wf x -> - Half <= sval x < Half.
+Proof. apply sval_range. Qed.
+
+(* |x| as computed by the code (abs, or the conditional negation of idivmod) *)
+Lemma absval x : wf x ->
+  let a := if isneg x then bunm x else x in
+  wf a /\ uval a = Z.abs (sval x).
+Proof.
+  intros Hx. pose proof (abs_correct x Hx) as (A & B). unfold babs in *. cbn zeta.
+  split; [exact A|]. rewrite B. destruct Half_facts as (E & _). pose proof (sval_bounds x Hx).
+  apply Z.mod_small. unfold two63 in *. lia.
+Qed.
+
+
 (* ---- bwrap ---- *)
 Theorem bwrap_correct x y : wf x -> in_i64 y ->
   exists r, bwrap x y = Some r /\ wf r /\ uval r = if y <=? 0 then 0 else uval x mod 2 ^ y.
@@ -156,11 +175,6 @@ Qed.
 Definition rotl (u k : Z) : Z :=
   let k' := k mod BINT_BITS in
   if k' =? 0 then u else Z.lor ((u * 2 ^ k') mod Wfull) (u / 2 ^ (BINT_BITS - k')).
-
-Definition brol_exact : Prop := forall x y, wf x -> in_i64 y ->
-  exists r, brol x y = Some r /\ wf r /\ uval r = rotl (uval x) y.
-Definition bror_exact : Prop := forall x y, wf x -> in_i64 y ->
-  exists r, bror x y = Some r /\ wf r /\ uval r = rotl (uval x) (- y).
 
 Lemma lsub_bits y : - BINT_BITS <= y <= BINT_BITS -> lsub BINT_BITS y = BINT_BITS - y.
 Proof. intros. pose proof bits_small. pose proof bits_ge64. change (2 ^ 31) with 2147483648 in *. apply lsub_exact. i64. Qed.
@@ -206,57 +220,59 @@ Proof.
     + split; [apply Z.div_pos; lia|]. apply Z.le_lt_trans with (uval x); [|lia]. apply Z.div_le_upper_bound; nia.
 Qed.
 
-Theorem brol_partial x y : wf x -> - BINT_BITS <= y <= BINT_BITS ->
+Lemma imod_bits_lmod y : lmod y BINT_BITS = Some (imod_bits y).
+Proof. unfold lmod, imod_bits. pose proof bits_ge64. destruct (BINT_BITS =? 0) eqn:E; [lia | reflexivity]. Qed.
+
+Lemma rotl_mod u k : rotl u (k mod BINT_BITS) = rotl u k.
+Proof. unfold rotl. pose proof bits_ge64. rewrite Z.mod_mod by lia. reflexivity. Qed.
+
+Lemma rotl_opp_mod u k : rotl u (- (k mod BINT_BITS)) = rotl u (- k).
+Proof.
+  unfold rotl. pose proof bits_ge64.
+  assert (E : (- (k mod BINT_BITS)) mod BINT_BITS = (- k) mod BINT_BITS).
+  { rewrite (Z.div_mod k BINT_BITS) at 2 by lia.
+    replace (- (BINT_BITS * (k / BINT_BITS) + k mod BINT_BITS)) with (- (k mod BINT_BITS) + (- (k / BINT_BITS)) * BINT_BITS) by ring.
+    rewrite Z.mod_add by lia. reflexivity. }
+  rewrite E. reflexivity.
+Qed.
+
+(* every Lua-integer count: rotation by the count reduced mod BITS *)
+Theorem brol_correct x y : wf x -> in_i64 y ->
   exists r, brol x y = Some r /\ wf r /\ uval r = rotl (uval x) y.
 Proof.
-  intros Hx Hy. unfold brol. pose proof bits_ge64.
-  destruct (0 <? y) eqn:E1; [apply brol_pos_spec; auto; lia|].
-  destruct (y <? 0) eqn:E2.
-  - pose proof bits_small as Hbs. change (2 ^ 31) with 2147483648 in Hbs.
-    destruct (y =? minint) eqn:E3; [unfold minint, two63 in *; lia|].
-    assert (En : lneg y = - y) by (apply wrap64_id; i64). rewrite En.
-    destruct (bror_pos_spec x (- y) Hx ltac:(lia)) as (r & A & B & C). exists r. rewrite Z.opp_involutive in C. auto.
-  - exists x. split; [reflexivity|]. split; [auto|]. assert (y = 0) by lia. subst. unfold rotl. cbn zeta.
-    rewrite Z.mod_0_l by lia. reflexivity.
+  intros Hx _. unfold brol, imod_bits. pose proof bits_ge64.
+  pose proof (Z.mod_pos_bound y BINT_BITS ltac:(lia)) as Hm. rewrite <- (rotl_mod (uval x) y).
+  destruct (y mod BINT_BITS =? 0) eqn:E.
+  - apply Z.eqb_eq in E. rewrite E. exists x. split; [reflexivity|]. split; [exact Hx|].
+    unfold rotl. rewrite Z.mod_0_l by lia. reflexivity.
+  - apply brol_pos_spec; auto. lia.
 Qed.
 
-Theorem bror_partial x y : wf x -> - BINT_BITS <= y <= BINT_BITS ->
+Theorem bror_correct x y : wf x -> in_i64 y ->
   exists r, bror x y = Some r /\ wf r /\ uval r = rotl (uval x) (- y).
 Proof.
-  intros Hx Hy. unfold bror. pose proof bits_ge64.
-  destruct (0 <? y) eqn:E1; [apply bror_pos_spec; auto; lia|].
-  destruct (y <? 0) eqn:E2.
-  - pose proof bits_small as Hbs. change (2 ^ 31) with 2147483648 in Hbs.
-    destruct (y =? minint) eqn:E3; [unfold minint, two63 in *; lia|].
-    assert (En : lneg y = - y) by (apply wrap64_id; i64). rewrite En.
-    apply brol_pos_spec; auto; lia.
-  - exists x. split; [reflexivity|]. split; [auto|]. assert (y = 0) by lia. subst. unfold rotl. cbn zeta.
-    rewrite Z.mod_0_l by lia. reflexivity.
+  intros Hx _. unfold bror, imod_bits. pose proof bits_ge64.
+  pose proof (Z.mod_pos_bound y BINT_BITS ltac:(lia)) as Hm. rewrite <- (rotl_opp_mod (uval x) y).
+  destruct (y mod BINT_BITS =? 0) eqn:E.
+  - apply Z.eqb_eq in E. rewrite E. exists x. split; [reflexivity|]. split; [exact Hx|].
+    unfold rotl. cbn [Z.opp]. rewrite Z.mod_0_l by lia. reflexivity.
+  - apply bror_pos_spec; auto. lia.
 Qed.
 
-(* beyond |y| <= BITS the code is not a rotation: witnesses, replayed against the
-   implementation on every run (known_findings/C17.json) *)
-Lemma wf_dec x : {wf x} + {~ wf x}.
+(* rotl is the mathematical rotation: the two parts occupy disjoint bits *)
+Lemma rotl_range u k : 0 <= u < Wfull -> 0 <= rotl u k < Wfull.
 Proof.
-  unfold wf. destruct (Nat.eq_dec (length x) BINT_SIZE) as [E|E]; [|right; tauto].
-  assert (D : {Forall limb_ok x} + {~ Forall limb_ok x}).
-  { apply Forall_dec. intros w. unfold limb_ok.
-    destruct (Z_le_dec 0 w); [|right; lia]. destruct (Z_lt_dec w Wd); [left; lia | right; lia]. }
-  destruct D; [left; auto | right; tauto].
-Qed.
-
-Theorem brol_exact_refuted : ~ brol_exact.
-Proof.
-  intros H. specialize (H bint_mininteger (BINT_BITS + 1) (proj1 mininteger_correct) ltac:(vm_compute; split; discriminate)).
-  destruct H as (r & A & _ & C). vm_compute in A. injection A as <-. vm_compute in C. discriminate.
-Qed.
-
-Theorem bror_exact_refuted : ~ bror_exact.
-Proof.
-  intros H. specialize (H bint_one (BINT_BITS + 1) (proj1 wf_one) ltac:(vm_compute; split; discriminate)).
-  destruct H as (r & A & _ & C). vm_compute in A. injection A as <-. vm_compute in C. discriminate.
+  intros Hu. unfold rotl. pose proof bits_ge64. pose proof (Z.mod_pos_bound k BINT_BITS ltac:(lia)) as Hm.
+  set (k' := k mod BINT_BITS) in *. destruct (k' =? 0) eqn:E; [exact Hu|].
+  assert (0 < 2 ^ (BINT_BITS - k')) by (apply Z.pow_pos_nonneg; lia).
+  pose proof (Z.mod_pos_bound (u * 2 ^ k') Wfull Wfull_pos).
+  assert (0 <= u / 2 ^ (BINT_BITS - k') < Wfull).
+  { split; [apply Z.div_pos; lia|]. apply Z.le_lt_trans with u; [|lia]. apply Z.div_le_upper_bound; nia. }
+  unfold Wfull in *. destruct (lor_cons BINT_BITS ((u * 2 ^ k') mod 2 ^ BINT_BITS) (u / 2 ^ (BINT_BITS - k')) 0 0 ltac:(lia) ltac:(lia) ltac:(lia)) as (R & _).
+  exact R.
 Qed.
 
 Example misc_example :
-  bwrap (frominteger (-1)) 8 = Some (frominteger 255) /\ brol bint_one (BINT_BITS - 1) = Some bint_mininteger.
-Proof. split; vm_compute; reflexivity. Qed.
+  bwrap (frominteger (-1)) 8 = Some (frominteger 255) /\ brol bint_one (BINT_BITS - 1) = Some bint_mininteger /\
+  brol bint_mininteger (BINT_BITS + 1) = Some bint_one /\ bror bint_one minint = brol bint_one (two63 mod BINT_BITS).
+Proof. repeat split; vm_compute; reflexivity. Qed.
